@@ -8,6 +8,7 @@ import (
 	"fmt"
 	"io"
 	"math/rand"
+	"os"
 	"strconv"
 	"strings"
 	"sync"
@@ -372,6 +373,11 @@ func (w *streamWorld) observe() (streamObs, bool) {
 	}
 	if o.Fin {
 		w.finSeen = true
+		for _, st := range o.Thr {
+			if st == "tw" {
+				w.direct = append(w.direct, "the stream reports finished while one of its frames is still being handed to the transport")
+			}
+		}
 	}
 	ctx := w.s.Context()
 	select {
@@ -814,10 +820,24 @@ func streamWire(c *vf.Ctx) {
 	allOps := []string{"MsgSend1", "MsgSend2", "RawWrite1", "RawFlush", "MsgRecv", "CloseSend", "Close", "SendError",
 		"CancelC", "CancelD", "SendCancel", "PMsg", "PCloseSend", "PClose", "PError", "PCancel"}
 	runs, bad := 0, 0
+	// directed: a writer parked in the transport, a terminal call queued behind it, termination from a third party,
+	// then the transport moves
+	var directed [][]stim
+	for _, snd := range []string{"MsgSend1", "MsgSend2", "RawWrite1"} {
+		for _, term := range []string{"Close", "SendError", "CloseSend"} {
+			for _, third := range []string{"CancelC", "CancelD", "PClose", "PError", "PCancel", "SendCancel"} {
+				directed = append(directed, []stim{{K: "start", T: "t1", Op: snd}, {K: "start", T: "t2", Op: term}, {K: "start", T: "t3", Op: third},
+					{K: "relw", How: "ok"}, {K: "relw", How: "ok"}, {K: "relw", How: "ok"}})
+			}
+		}
+	}
 	for _, cf := range []struct{ small, manual bool }{{true, false}, {false, false}, {true, true}} {
-		for i := 0; i < n/3; i++ {
+		for i := 0; i < n/3+len(directed); i++ {
 			var stims []stim
-			for j, m := 0, 4+rng.Intn(12); j < m; j++ {
+			if i < len(directed) {
+				stims = directed[i]
+			}
+			for j, m := 0, 4+rng.Intn(12); i >= len(directed) && j < m; j++ {
 				switch r := rng.Intn(10); {
 				case r < 6:
 					stims = append(stims, stim{K: "start", T: streamThreads[rng.Intn(3)], Op: allOps[rng.Intn(len(allOps))]})
@@ -865,3 +885,23 @@ func streamWire(c *vf.Ctx) {
 	}
 	c.Cov["stream_level_wire_runs"] = runs
 }
+
+// STREAMDEV: one stimulus list (VERIF_STIMS, JSON) on the single-stream world, every line printed (development aid).
+func streamDev(c *vf.Ctx) {
+	var stims []stim
+	if err := json.Unmarshal([]byte(os.Getenv("VERIF_STIMS")), &stims); err != nil {
+		fmt.Println("bad VERIF_STIMS:", err)
+		return
+	}
+	w := newStreamWorld(os.Getenv("VERIF_SMALL") != "0", os.Getenv("VERIF_MANUAL") == "1")
+	lines, quiet := w.run(stims)
+	w.cleanup()
+	for i, l := range lines {
+		b, _ := json.Marshal(l)
+		fmt.Printf("%2d %s\n", i, b)
+	}
+	fmt.Println("quiet:", quiet, "direct:", w.direct)
+	c.EvalN(1)
+}
+
+func init() { All["STREAMDEV"] = streamDev }
